@@ -226,10 +226,10 @@ impl FileTree {
         {
             let entry = entry.map_err(|e| read_error(path, e))?;
             let path = entry.path();
-            let file_type =
-                entry.file_type().map_err(|e| read_error(&path, e))?;
 
-            if file_type.is_dir() {
+            // `Path::is_dir` follows symbolic links, like reading a linked
+            // `.roto` file below does, so a linked directory is a module too.
+            if path.is_dir() {
                 self.process_subdir(parent_id, &path)?;
                 continue;
             }
